@@ -105,9 +105,13 @@ class SuiteRun:
             if rc != 0:
                 self.crashed["lean"] = (rc, err[-2000:])
 
-    def disagreements(self):
-        """[(session index, op index, rust line, lean line)] first disagreement of each session"""
+    def disagreements(self, relevant_state=("E", "D", "M")):
+        """[(session index, op index, rust line, lean line)] first disagreement of each session.
+        `relevant_state`: kinds of internal state (E encapsulator, D decapsulator, M bare memory) the property's
+        theorems speak about; an op whose RESULT agrees and whose state differs only in a kind outside this set
+        is counted in self.state_only (and the scan of the session goes on) instead of being reported."""
         res = []
+        self.state_only = 0
         if self.rust is None or self.lean is None:
             return res
         for si, s in enumerate(self.sessions):
@@ -125,6 +129,12 @@ class SuiteRun:
                     b = b.rsplit(" | ", 1)[0]
                     self.unobservable += 1
                 if a != b:
+                    if " | " in a and " | " in b:
+                        ra, sa = a.rsplit(" | ", 1)
+                        rb, sb = b.rsplit(" | ", 1)
+                        if ra == rb and (sb[:1] or "-") not in relevant_state and (sa[:1] or "-") not in relevant_state:
+                            self.state_only += 1
+                            continue
                     res.append((si, i, a, b))
                     break
         return res
